@@ -1360,14 +1360,18 @@ void base_str<CharT>::EnsureAlloced(size_t amount, bool keepold)
 
     CharT* newbuffer;
 
-    if (amount < m_data->alloced) {
-        return;
-    }
-
-    if (amount == m_data->alloced && !m_data->refcount)
+    if (!m_data->refcount)
     {
-        // don't bother reallocating if it's the same amount
-        return;
+        if (amount <= m_data->alloced)
+        {
+            // sole owner with enough room: don't bother reallocating
+            return;
+        }
+    }
+    else if (amount < m_data->alloced)
+    {
+        // shared storage is never written to: make a private copy that keeps the capacity
+        amount = m_data->alloced;
     }
 
     assert(amount);
